@@ -517,8 +517,129 @@ def run_discovery(res):
                                                       what=f"calls {calls}; {case}", size=1, replay=dict(kind="discovery", case=case)))
 
 
+def reference_positions() -> List[Tuple[str, str, Dict[str, Any]]]:
+    """Every place a config can reference a logic name -> (label, role, config referencing 'probeIt' there and nothing else)."""
+    N = "probeIt"
+    out: List[Tuple[str, str, Dict[str, Any]]] = []
+
+    def base() -> Dict[str, Any]:
+        return {"id": "d", "initial": "a", "states": {"a": {"on": {"E": {"target": "b"}}}, "b": {}}}
+
+    def add(label, role, mut):
+        cfg = base()
+        mut(cfg)
+        out.append((label, role, cfg))
+
+    # ---- actions
+    add("entry", "action", lambda c: c["states"]["a"].update(entry=[N]))
+    add("exit", "action", lambda c: c["states"]["a"].update(exit=[N]))
+    add("entry-object", "action", lambda c: c["states"]["a"].update(entry=[{"type": N, "params": {"k": 1}}]))
+    add("entry-single", "action", lambda c: c["states"]["a"].update(entry=N))
+    add("on-actions", "action", lambda c: c["states"]["a"]["on"]["E"].update(actions=[N]))
+    add("on-list-second-candidate", "action", lambda c: c["states"]["a"]["on"].update(E=[{"target": "b", "guard": {"type": "stateIn", "params": {"state": "#d.b"}}}, {"target": "b", "actions": [N]}]))
+    add("always-actions", "action", lambda c: c["states"]["b"].update(always={"target": "a", "guard": {"type": "stateIn", "params": {"state": "#d.zz"}}, "actions": [N]}))
+    add("after-actions", "action", lambda c: c["states"]["a"].update(after={"100": {"target": "b", "actions": [N]}}))
+    add("state-onDone-actions", "action", lambda c: c["states"].update(b={"initial": "f", "states": {"f": {"type": "final"}}, "onDone": {"target": "a", "actions": [N]}}))
+    add("invoke-onDone-actions", "action", lambda c: c["states"].update(b={"invoke": {"src": "svc", "onDone": {"target": "a", "actions": [N]}}}))
+    add("invoke-onError-actions", "action", lambda c: c["states"].update(b={"invoke": {"src": "svc", "onError": {"target": "a", "actions": [N]}}}))
+    add("root-on-actions", "action", lambda c: c.update(on={"R": {"actions": [N]}}))
+    add("root-entry", "action", lambda c: c.update(entry=[N]))
+    add("nested-state-entry", "action", lambda c: c["states"].update(b={"initial": "p", "states": {"p": {"initial": "q", "states": {"q": {"entry": [N]}}}}}))
+    add("parallel-region-exit", "action", lambda c: c["states"].update(b={"type": "parallel", "states": {"r1": {"initial": "p", "states": {"p": {"exit": [N]}}}, "r2": {}}}))
+    # ---- guards: plain, and inside composites of depth 1..3 in every operand spelling
+    def g_on(c, g, key="guard"):
+        c["states"]["a"]["on"]["E"][key] = g
+    add("on-guard", "guard", lambda c: g_on(c, N))
+    add("on-cond", "guard", lambda c: g_on(c, N, "cond"))
+    add("on-guard-object", "guard", lambda c: g_on(c, {"type": N, "params": {"k": 1}}))
+    wrappers = {
+        "and-children": lambda x: {"type": "and", "children": ["other", x]},
+        "or-params.guards": lambda x: {"type": "or", "params": {"guards": [x, "other"]}},
+        "not-children": lambda x: {"type": "not", "children": [x]},
+        "not-params.guard": lambda x: {"type": "not", "params": {"guard": x}},
+        "and-params.children": lambda x: {"type": "and", "params": {"children": [x]}},
+    }
+    for depth in (1, 2, 3):
+        for combo in itertools.product(sorted(wrappers), repeat=depth):
+            if depth == 3 and len(set(combo)) == 1 and combo[0] != "not-children":
+                continue
+            def mk(combo=combo):
+                g: Any = N
+                for w in reversed(combo):
+                    g = wrappers[w](g)
+                return g
+            add("guard-in-" + ">".join(combo), "guard", lambda c, mk=mk: g_on(c, mk()))
+    add("always-guard", "guard", lambda c: c["states"]["b"].update(always={"target": "a", "guard": N}))
+    add("after-guard", "guard", lambda c: c["states"]["a"].update(after={"100": {"target": "b", "guard": N}}))
+    add("state-onDone-guard", "guard", lambda c: c["states"].update(b={"initial": "f", "states": {"f": {"type": "final"}}, "onDone": {"target": "a", "guard": N}}))
+    add("invoke-onDone-guard", "guard", lambda c: c["states"].update(b={"invoke": {"src": "svc", "onDone": {"target": "a", "guard": {"type": "not", "children": [{"type": "and", "children": [N]}]}}}}))
+    add("invoke-onError-guard", "guard", lambda c: c["states"].update(b={"invoke": {"src": "svc", "onError": {"target": "a", "guard": N}}}))
+    add("root-on-guard", "guard", lambda c: c.update(on={"R": {"target": ".b", "guard": N}}))
+    # ---- services
+    add("invoke-src", "service", lambda c: c["states"].update(b={"invoke": {"src": N, "onDone": "a"}}))
+    add("invoke-list-second", "service", lambda c: c["states"].update(b={"invoke": [{"src": "svc"}, {"src": N, "id": "second"}]}))
+    add("nested-invoke-src", "service", lambda c: c["states"].update(b={"initial": "p", "states": {"p": {"invoke": {"src": N}}}}))
+    return out
+
+
+def run_positions(res):
+    """Discovery demands - and binds - a name referenced at ANY position: with the implementation supplied creation binds it,
+    without it creation raises ImplementationMissingError (never later)."""
+    def fn(role):
+        if role == "action":
+            return lambda interp, ctx, ev, ad: None
+        if role == "guard":
+            return lambda ctx, ev: True
+        return lambda interp, ctx, ev: 1
+
+    for label, role, cfg in reference_positions():
+        for provider in ("module", "instance"):
+            for supplied in (True, False):
+                res["evaluations"] += 1
+                res["executions"] += 1
+                res["distinct_count"] += 1
+                defs = {"other": fn("guard"), "svc": fn("service")}
+                if supplied:
+                    defs["probeIt"] = fn(role)
+                for k, f in defs.items():
+                    f.__name__ = k
+                case = f"position={label} role={role} provider={provider} supplied={supplied}"
+                try:
+                    if provider == "module":
+                        mod = types.ModuleType("verif_pos_mod")
+                        for k, f in defs.items():
+                            f.__module__ = "verif_pos_mod"
+                            setattr(mod, k, f)
+                        m = create_machine(copy.deepcopy(cfg), logic_modules=[mod])
+                    else:
+                        ns = {k: (lambda f: (lambda self, *a: f(*a)))(f) for k, f in defs.items()}
+                        for k in ns:
+                            ns[k].__name__ = k
+                        m = create_machine(copy.deepcopy(cfg), logic_providers=[type("Provider", (), ns)()])
+                except ImplementationMissingError as exc:
+                    if supplied:
+                        res["violations"].append(dict(signature=f"C19|supplied-implementation-not-found|{role}", clause="not-bound",
+                                                      what=f"creation raised {exc!r} although the implementation was supplied; {case}", size=1,
+                                                      replay=dict(kind="positions", case=case)))
+                    continue
+                except Exception as exc:  # noqa: BLE001
+                    res["violations"].append(dict(signature=f"C19|positions-raw-{type(exc).__name__}", clause="raw-exception",
+                                                  what=f"creation raised {exc!r}; {case}", size=1, replay=dict(kind="positions", case=case)))
+                    continue
+                bound = getattr(m.logic, role + "s")
+                if supplied and "probeIt" not in bound:
+                    res["violations"].append(dict(signature=f"C19|referenced-name-not-bound|{role}", clause="not-bound",
+                                                  what=f"creation succeeded but '{'probeIt'}' is not among the bound {role}s {sorted(bound)}; {case}", size=1,
+                                                  replay=dict(kind="positions", case=case)))
+                if not supplied:
+                    res["violations"].append(dict(signature=f"C19|missing-implementation-not-reported-at-creation|{role}", clause="late-missing",
+                                                  what=f"creation succeeded although no implementation of 'probeIt' exists; {case}", size=1,
+                                                  replay=dict(kind="positions", case=case)))
+
+
 def units(tier: str) -> List[Any]:
     us: List[Any] = []
+    us.append(("positions", None, None, None))
     for name in all_cfgs():
         for style in ("functional", "builder", "class"):
             for variant in ("on", "objects"):
@@ -533,6 +654,9 @@ def run_unit(unit):
     if kind == "translate":
         check_translation(name, all_cfgs()[name], style, variant, res)
         res["samples"].append(dict(machine=name, style=style, variant=variant))
+    elif kind == "positions":
+        run_positions(res)
+        res["samples"].append(dict(kind="positions", cases=res["evaluations"]))
     else:
         run_discovery(res)
         res["samples"].append(dict(kind="discovery", cases=res["evaluations"]))
